@@ -1158,6 +1158,8 @@ class FakeServer:
         self.is_connected = True
         self.client = None
         self.calls = 0
+        self.asked = []
+        self.after_reply = None
 
     async def _yield(self):
         self.calls += 1
@@ -1216,7 +1218,12 @@ class FakeServer:
 
     async def get_history(self, address):
         await self._yield()
-        return [{'tx_hash': t, 'height': n} for t, n in self.history(address)]
+        reply = [{'tx_hash': t, 'height': n} for t, n in self.history(address)]
+        self.asked.append(address)
+        if self.after_reply is not None:        # the chain may grow while the answer travels: the asker's update is in flight
+            self.after_reply(address)
+            await self._yield()
+        return reply
 
     def _merkle(self, txid):
         from binascii import hexlify
@@ -1233,7 +1240,11 @@ class FakeServer:
     async def get_transaction_batch(self, txids, restricted=True):
         from binascii import hexlify
         await self._yield()
-        return {t: (hexlify(self.tx[t].raw).decode(), self._merkle(t)) for t in txids}
+        reply = {t: (hexlify(self.tx[t].raw).decode(), self._merkle(t)) for t in txids}
+        if self.after_reply is not None and self.asked:
+            self.after_reply(self.rnd.choice(self.asked[-3:]))
+            await self._yield()
+        return reply
 
     # ---- notifications
     def pending_notifications(self):
@@ -1249,7 +1260,7 @@ class FakeServer:
         self._on_status_controller.add(update)
 
 
-async def run_sync(seed, gaps=(4, 3), stages=4, mode='mixed', third_party_script=None, claim_name=None):
+async def run_sync(seed, gaps=(4, 3), stages=4, mode='mixed', third_party_script=None, claim_name=None, in_flight=0):
     """build the wallet, grow the chain in stages, deliver the notifications, compare with the oracle; returns the discrepancies"""
     import os
     import random
@@ -1287,12 +1298,13 @@ async def run_sync(seed, gaps=(4, 3), stages=4, mode='mixed', third_party_script
             'name': 'deterministic-chain', 'receiving': {'gap': gaps[0], 'maximum_uses_per_address': 1},
             'change': {'gap': gaps[1], 'maximum_uses_per_address': 1}}})
         txs, plan = describe_chain(seed, {0: gaps[0], 1: gaps[1]}, stages, third_party_script)
-        addr_cache, built = {}, {}
+        addr_cache, built, owner_of = {}, {}, {}
 
         def address_of(owner):
             if owner not in addr_cache:
                 if owner[0] == 'mine':      # BIP32 public derivation m/chain/index (C06)
                     addr_cache[owner] = account.address_managers[owner[1]].public_key.child(owner[2]).address
+                    owner_of[addr_cache[owner]] = owner
                 else:
                     addr_cache[owner] = ledger.hash160_to_address(hashlib.sha256(b'other%d' % owner[1]).digest()[:20])
             return addr_cache[owner]
@@ -1326,6 +1338,30 @@ async def run_sync(seed, gaps=(4, 3), stages=4, mode='mixed', third_party_script
                     return
             problems.append('update tasks never settle')
 
+        budget = [in_flight]
+
+        def grow_while_update_in_flight(address):
+            """the server accepts a payment to `address` (often re-spent at once) right after it answered a request of the update
+            of that address, and notifies at once: the notification arrives while that update still holds the address lock"""
+            owner = owner_of.get(address)
+            if owner is None or budget[0] <= 0 or rnd.random() < 0.4:
+                return
+            budget[0] -= 1
+            amount, no = rnd.randint(10 ** 5, 10 ** 8), len(txs)
+            txs.append(dict(no=no, ins=[('ext', 100000 + no)], outs=[('plain', owner, amount)]))
+            server.add_mempool(*build(txs[no]))
+            if rnd.random() < 0.7:
+                outs = [('p2pkh', ('other', 100000 + no), amount // 2)]
+                if rnd.random() < 0.6:
+                    used = [o[1][2] for t in txs if t['no'] in built for o in t['outs'] if o[1][:2] == ('mine', 1)]
+                    outs.append(('plain', ('mine', 1, rnd.randint(0, max(used, default=-1) + gaps[1])), amount // 3))
+                txs.append(dict(no=no + 1, ins=[('tx', no, 0)], outs=outs))
+                server.add_mempool(*build(txs[no + 1]))
+            for n in server.pending_notifications():
+                server.notify(n)
+        if in_flight:
+            server.after_reply = grow_while_update_in_flight
+
         stale = []
         for s, step in enumerate(plan):
             for no in step['new']:
@@ -1356,10 +1392,6 @@ async def run_sync(seed, gaps=(4, 3), stages=4, mode='mixed', third_party_script
                 await settle()
         for n in stale + server.pending_notifications():
             server.notify(n)
-        await settle()
-        for a in list(server.subscribed):       # a server always ends up sending the latest status of every subscribed address
-            if (await ledger.get_local_status_and_history(a))[0] != server.status(a):
-                server.notify((a, server.status(a)))
         await settle()
         problems += failures[:3]
 
